@@ -59,7 +59,7 @@ def gen_cases(rng, tier):
         extra = [[0, 0, 0]]
         for _t in range(1, T):
             extra.append([extra[-1][k] + rng.randint(-200, 200) for k in range(3)])
-        cases.append({'empty_other': rng.choice([None, None, None, 'list', 'tuple', 'set']),
+        cases.append({'lead': rng.choice([0, 0, 0, 2, 5]), 'lead_disp': rng.random() < 0.5, 'empty_other': rng.choice([None, None, None, 'list', 'tuple', 'set']),
                       'species': species, 'ref': sorted(ref), 'mode': mode, 'coll': rng.choice(['str', 'list', 'set', 'frozenset', 'tuple', 'keys']),
                       'objs': rng.choice(['Element', 'Species']), 'coords': coords, 'extra': extra})
     return cases
@@ -94,6 +94,16 @@ def _traj(case, coords):
     from gemdat.trajectory import Trajectory
     from pymatgen.core import Element, Species
     sp = [Element(s) if case['objs'] == 'Element' else Species(s, 0) for s in case['species']]
+    k = case.get('lead', 0)
+    if k:
+        # the analysed frames are the tail of a longer run (equilibration frames dropped by slicing): same frames, same answers
+        c = np.array(coords, dtype=float) / DEN
+        lead = c[:1] + (np.arange(k, 0, -1)[:, None, None] * 0.013) * np.ones_like(c[:1])
+        full = Trajectory(species=sp, coords=np.concatenate([lead, c], axis=0), lattice=synth.make_lattice([[6, 0, 0], [1, 7, 0], [0, 2, 8]]),
+                          time_step=2e-15, metadata={'temperature': 300, 'tag': 'x'})
+        if case.get('lead_disp'):
+            _ = full.displacements
+        return full[k:]
     return Trajectory(species=sp, coords=np.array(coords, dtype=float) / DEN, lattice=synth.make_lattice([[6, 0, 0], [1, 7, 0], [0, 2, 8]]),
                       time_step=2e-15, metadata={'temperature': 300, 'tag': 'x'})
 
